@@ -87,6 +87,8 @@ structure NDoc where
   contexts : List String := []
   controllers : List String := []
   ctrlEmptyAny : Bool := false -- some controller DID is Empty()
+  vmNull : Bool := false       -- `verificationMethod` holds a nil entry (JSON null); nil entries are not listed in `vms`
+  relNull : Bool := false      -- some verification relationship has no verification method (JSON null)
   vms : List NVM := []
   auth : List NVM := []
   assertion : List NVM := []
@@ -120,23 +122,25 @@ def NDoc.toDoc (d : NDoc) : Doc :=
 /-! ### validators.go + go-did W3CSpecValidator -/
 
 inductive Validator where
-  | w3c | nutsVM | nutsService
+  | nilEntry | w3c | nutsVM | nutsService
   deriving DecidableEq, Repr, Inhabited
 
 /-- the individual checks; `validateWith` runs exactly the enabled ones (so that necessity of each can be stated) -/
 inductive Rule where
+  | nilEntries
   | w3cContext | w3cId | w3cController | w3cVM | w3cRel | w3cService
   | vmFragment | vmUnique | vmPrefix | vmThumbprint
   | svcFragment | svcUnique | svcPrefix | svcTypeUnique
   deriving DecidableEq, Repr, Inhabited
 
 def Validator.rules : Validator → List Rule
+  | .nilEntry => [.nilEntries]
   | .w3c => [.w3cContext, .w3cId, .w3cController, .w3cVM, .w3cRel, .w3cService]
   | .nutsVM => [.vmFragment, .vmUnique, .vmPrefix, .vmThumbprint]
   | .nutsService => [.svcFragment, .svcUnique, .svcPrefix, .svcTypeUnique]
 
 def Rule.all : List Rule :=
-  [.w3cContext, .w3cId, .w3cController, .w3cVM, .w3cRel, .w3cService,
+  [.nilEntries, .w3cContext, .w3cId, .w3cController, .w3cVM, .w3cRel, .w3cService,
    .vmFragment, .vmUnique, .vmPrefix, .vmThumbprint, .svcFragment, .svcUnique, .svcPrefix, .svcTypeUnique]
 
 /-- `validateVM` of go-did -/
@@ -193,7 +197,14 @@ def validateSvcs (on : Rule → Bool) (owner : String) : List NSvc → List Stri
       if on .svcTypeUnique && knownTypes.contains s.type then .err "validate:svc:duplicate-type"
       else validateSvcs on owner ss (s.id :: knownIds) (s.type :: knownTypes)
 
+/-- `nilEntryValidator.Validate`: null entries are refused before anything dereferences them -/
+def validateNil (on : Rule → Bool) (d : NDoc) : Res Unit :=
+  if on .nilEntries && d.vmNull then .err "validate:nil:verificationMethod"
+  else if on .nilEntries && d.relNull then .err "validate:nil:relationship"
+  else .ok ()
+
 def runValidator (thumb : Key → String) (nilErr : Bool) (on : Rule → Bool) (d : NDoc) : Validator → Res Unit
+  | .nilEntry => validateNil on d
   | .w3c => validateW3C on d
   | .nutsVM => validateVMs thumb nilErr on d.id d.vms []
   | .nutsService => validateSvcs on d.id d.services [] []
